@@ -24,6 +24,48 @@ CHECKS = {
         ref='§5 C14'),
 }
 
+CHECKS['C15'] = dict(
+    technique='Lean 4 theorems over kernels translated from process.py/comp_utils.py on every run + exact-arithmetic memory model + differential correspondence',
+    text=('Theorems (Usid/Properties/C15.lean): budget inequality and monotonicity of the exact-arithmetic model of '
+          '__set_memory for every budget/multiplier/worker count; 1 <= cores <= logical for the GENERATED __set_cores and '
+          'recommend_cpu_cores for every request (None, negative, zero, beyond the machine), requested_cores=0 and '
+          'num_jobs=0 raise; the compute loop assembled from the generated window/recommender terminates with the '
+          'windows tiling the pending range when the batch is >= 1 and stops with ValueError, marking nothing, when it '
+          'is 0. Correspondence: simulated machines (psutil patched in the harness), constructor sizing vs model, '
+          'paired budgets for monotonicity, real compute() under a watchdog for zero/one-row budgets.'),
+    note=COMMON_NOTE + 'IEEE rounding inside __set_memory is not modelled (exact rational of the float multiplier; '
+         'generated multipliers are dyadic so float floor equals exact floor); MPI branch of __set_cores not modelled; '
+         'zero-budget claim is about the default _unit_computation.',
+    ref='§5 C15')
+CHECKS['C03'] = dict(
+    technique='Lean 4 theorems (induction over the batching loop) + differential correspondence on real compute() runs',
+    text=('Theorems (Usid/Properties/C03.lean) prove for every mask, every batch limit >= 1 and every map function: '
+          'batches are consecutive slices of the pending list (disjoint, ordered, non-empty, within the limit, covering '
+          'exactly the pending positions); the call log is the pending list (exactly once, never a completed position); '
+          'final results are f(row) on pending positions and untouched elsewhere; status is 1 everywhere; the outcome '
+          'does not depend on the batch limit or the worker count. Correspondence: real compute() of a logging Process '
+          'subclass (serial, joblib multi-core, lazy, separate target file) vs the model.'),
+    note=COMMON_NOTE + 'joblib worker scheduling is not modelled: order preservation for cores > 1 is sampled, not proved.',
+    ref='§5 C03')
+
+CHECKS['C04'] = dict(
+    technique='Lean 4 theorems (invariant over all event traces, induction over interruption lists) + differential crash injection at every h5py event',
+    text=('Theorems (Usid/Properties/C04.lean): for EVERY trace of file events, the decidable acceptance WellFormed implies '
+          'that at every crash point both survivors (gracefully closed / as of the last flush) mark no position complete '
+          'unless its final result is stored; the modelled compute trace is WellFormed for every configuration; every '
+          'survivor of the modelled run is a Good state; Good is preserved over ANY list of successive interruptions '
+          '(own batch size, crash point, survivor kind each) and resuming from a Good state ends with exactly the '
+          'results/status of the uninterrupted run, recomputing only unmarked positions; marks written before a '
+          'checkpoint of their file are durable forever after, for results in the source file and in a separate file. '
+          'Tie: the real compute() is traced through wrappers around h5py write/flush/attr/create calls; the observed '
+          'trace is (a) evaluated by WellFormed in Lean, (b) compared with the modelled trace, (c) replayed in the Lean '
+          'crash model whose predicted survivors are compared with the real files for an injected crash before EVERY '
+          'event; every survivor is re-opened, resumed with another batch size and compared with the clean run; '
+          'thorough adds successive interruptions and real os._exit kills.'),
+    note=COMMON_NOTE + 'HDF5 write-back below flush() is not modelled: the kill survivor is the bytes as of the last flush '
+         '(file copy taken right after each flush), as the property defines it; real kills are sampled in the thorough tier.',
+    ref='§5 C04')
+
 REASON_PENDING = 'check not built yet in this round (planned: Lean model + theorems + correspondence, see DESIGN.md §5)'
 
 
